@@ -311,7 +311,11 @@ func VerifConcurrentSenders() {
 	c := vNewClient(conn, 4)
 	reg := vReg("t,,1")
 	ctx := context.Background()
-	p1 := vPutVals(ctx, "a", reg, 1)
+	var single hrpc.Call = vPutVals(ctx, "a", reg, 1)
+	plain := verifBool()
+	if plain {
+		single = vGet(ctx, "a", reg) // a request without cellblocks: a single Write
+	}
 	m := newMulti(4)
 	m.add([]hrpc.Call{vPutVals(ctx, "b", reg, 1)})
 	done := make(chan struct{})
@@ -319,14 +323,25 @@ func VerifConcurrentSenders() {
 		verifAssert(c.trySend(m) == nil, "send multi")
 		close(done)
 	}()
-	verifAssert(c.trySend(p1) == nil, "send put")
+	verifAssert(c.trySend(single) == nil, "send single call")
 	<-done
 	stream := conn.wrote
+	cellFrames := 0
 	for i := 0; i < 2; i++ {
 		f := vParseFrame(stream)
 		verifAssert(f.ok, "the stream is a concatenation of whole frames")
-		verifAssert(vCountCells(f.cells) == 1, "every frame is followed by its own cellblock")
+		k := vCountCells(f.cells)
+		verifAssert(k == 0 || k == 1, "every frame is followed by its own cellblock, whole")
+		if f.hdr.GetMethodName() == "Get" {
+			verifAssert(k == 0, "a get is not followed by another request's cells")
+		} else {
+			verifAssert(k == 1, "a mutation is followed by its own cellblock")
+		}
+		cellFrames += k
 		stream = f.rest
+	}
+	if plain {
+		verifAssert(cellFrames == 1, "one cellblock in the stream")
 	}
 	verifAssert(len(stream) == 0, "nothing but the two frames is written")
 	verifReach("two-senders")
